@@ -411,7 +411,7 @@ package jobs
 //@   prop C11
 //@   ghost checkedG int = 0
 //@   requires s != nil && jobConfiguration != nil
-//@   requires forall i int, k int :: 0 <= i && i < len(jobConfiguration.Triggers) && 0 <= k && k < len(jobConfiguration.Triggers[i].ErrorHandlers) ==> jobConfiguration.Triggers[i].ErrorHandlers[k] != nil
+//@   requires-inv [error-handler-lists-hold-no-null-entries] jobConfiguration != nil ==> (forall i int, k int :: 0 <= i && i < len(jobConfiguration.Triggers) && 0 <= k && k < len(jobConfiguration.Triggers[i].ErrorHandlers) ==> jobConfiguration.Triggers[i].ErrorHandlers[k] != nil)
 //@   ensures [C11:accepted-definition-had-the-error-handlers-of-every-trigger-validated] result == nil ==> checkedG == len(jobConfiguration.Triggers) && checkedG >= 1
 //@   at call verifyErrorHandlers#1 before
 //@     assert [C11:handlers-validated-for-the-trigger-at-hand-and-this-job] trigger.ErrorHandlers == jobConfiguration.Triggers[$i2 + 1].ErrorHandlers && id == jobConfiguration.ID && title == jobConfiguration.Title
